@@ -27,5 +27,6 @@
       { extern int G_buf_bytes; V_ASSERT(0 <= i && i < G_buf_bytes, "buffer index stays inside the allocated block (item[] is a struct-hack member: CBMC's own bounds check cannot see its real extent)"); }
 @*/
 #define IX_KINDS(k) ((k) == 1)
+#define IX_FIRST_KIND 1
 #define IX_ENTRY h_op_index_buffer
 #include "c01_index.h"
